@@ -540,6 +540,70 @@ def wl_cuckoo(ctx, rng, case):
         sc.cleanup()
 
 
+# ------------------------------------------------------------------------------- one spelling, two places
+
+def wl_spellings(ctx, rng, case):
+    """the SAME path spelling means different files at different times: a relative path used from two working directories, a path through
+    a symbolic link that is re-pointed in between.  Two different structures of one class are exported to that spelling, one in each
+    situation; each export lands where the operating system puts it, holds that structure's bytes, and loads back as that structure"""
+    import os
+    import random as stdrandom
+
+    import probables as P
+
+    kind = ["bloom", "counting_bloom", "cms", "cuckoo", "counting_cuckoo", "expanding", "rotating"][case.index % 7]
+    stdrandom.seed(rng.getrandbits(32))
+    mk = {"bloom": lambda: P.BloomFilter(30, 0.05), "counting_bloom": lambda: P.CountingBloomFilter(30, 0.05), "cms": lambda: P.CountMinSketch(width=20, depth=3),
+          "cuckoo": lambda: P.CuckooFilter(capacity=20, bucket_size=2), "counting_cuckoo": lambda: P.CountingCuckooFilter(capacity=20, bucket_size=2),
+          "expanding": lambda: P.ExpandingBloomFilter(5, 0.05), "rotating": lambda: P.RotatingBloomFilter(5, 0.05, max_queue_size=3)}[kind]
+    load = {"bloom": lambda p: P.BloomFilter(filepath=p), "counting_bloom": lambda p: P.CountingBloomFilter(filepath=p), "cms": lambda p: P.CountMinSketch(filepath=p),
+            "cuckoo": lambda p: P.CuckooFilter(filepath=p), "counting_cuckoo": lambda p: P.CountingCuckooFilter(filepath=p),
+            "expanding": lambda p: P.ExpandingBloomFilter(filepath=p), "rotating": lambda p: P.RotatingBloomFilter(filepath=p, max_queue_size=3)}[kind]
+    o1, o2 = mk(), mk()
+    for i in range(rng.randint(1, 6)):
+        o1.add(f"first-{i}")
+    for i in range(rng.randint(7, 12)):
+        o2.add(f"second-{i}")
+    b1, b2 = bytes(o1), bytes(o2)
+    how = rng.choice(["relative path, two working directories", "symbolic link re-pointed"])
+    case.desc = {"kind": kind, "situation": how}
+    sc = bl.Scratch(ctx, case)
+    cwd0 = os.getcwd()
+    try:
+        d1, d2 = os.path.join(sc.dir, "one", "state"), os.path.join(sc.dir, "two", "state")
+        os.makedirs(d1), os.makedirs(d2)
+        if how.startswith("relative"):
+            spelling = os.path.join("state", "f.bin")
+            os.chdir(os.path.dirname(d1))
+            o1.export(spelling)
+            r1 = load(spelling)
+            os.chdir(os.path.dirname(d2))
+            o2.export(spelling)
+            r2 = load(spelling)
+        else:
+            link = os.path.join(sc.dir, "current")
+            spelling = os.path.join(link, "f.bin")
+            os.symlink(d1, link)
+            o1.export(spelling)
+            r1 = load(spelling)
+            os.unlink(link)
+            os.symlink(d2, link)
+            o2.export(spelling)
+            r2 = load(spelling)
+        for tag, d, want in (("first", d1, b1), ("second", d2, b2)):
+            p = os.path.join(d, "f.bin")
+            ctx.check(os.path.exists(p), f"{kind}: nothing was written where the {tag} export ({how}) belongs", path_exists=os.path.exists(p))
+            with open(p, "rb") as fh:
+                ctx.check(fh.read() == want, f"{kind}: the file of the {tag} export ({how}) does not hold that structure's bytes")
+        ctx.check(bytes(r1) == b1 and bytes(r2) == b2, f"{kind}: loading the spelling right after each export ({how}) did not give that export's structure back")
+        ctx.count("spellings_that_meant_two_places")
+        ctx.count(f"channel.path.{kind}")
+        case.nontrivial = True
+    finally:
+        os.chdir(cwd0)
+        sc.cleanup()
+
+
 # ------------------------------------------------------------------------------- large geometries
 
 def wl_large(ctx, rng, case):
@@ -662,6 +726,7 @@ PROP = Prop(
         Workload("sketch", wl_sketch, quick=600, thorough=120000),
         Workload("cuckoo", wl_cuckoo, quick=600, thorough=120000),
         Workload("large", wl_large, quick=18, thorough=600),
+        Workload("spellings", wl_spellings, quick=28, thorough=700),
     ],
     assumptions=["what the format does not store is re-supplied: hash function, cuckoo fingerprint width (setter or error rate) and expansion settings, rotating queue limit, "
                  "heavy-hitter / threshold parameters; confidence / error rate of a sketch sized that way are not compared",
